@@ -333,12 +333,12 @@ class RegFileMonitor:
     def _atomic(self, r):
         return r.kind == STORAGE and r.atomic and r.eff_size() > self.bw
 
-    def observe(self, letter, outs):
+    def observe(self, letter, outs, check_datr=True):
         adr, bre, bwe, dat = letter[:4]
         regs = self.regs
         msg = None
         # ---- check the outputs of this cycle against what earlier cycles imply
-        if outs[0] != self.exp_datr:
+        if check_datr and outs[0] != self.exp_datr:
             msg = "dat_r = %#x, expected %#x (value of the word addressed in the previous cycle)" % (outs[0], self.exp_datr)
         sel = (adr >> self.pbits) == self.address
         idx = adr & ((1 << self.pbits) - 1)
@@ -519,15 +519,22 @@ class SramMonitor:
         self.pending = None     # (memory word index, sub-word) addressed in the previous cycle
         self.skip = False
 
-    def observe(self, letter, outs):
+    def expected_datr(self):
+        """Expected read data of this cycle; None = unspecified."""
+        I = self.i
+        if self.skip:
+            return None
+        if self.pending is None:
+            return 0
+        w, sub = self.pending
+        return None if self.mem[w] is None else (self.mem[w] >> ((I.cpm - 1 - sub) * I.bw)) & ((1 << I.bw) - 1)
+
+    def observe(self, letter, outs, check_datr=True):
         I = self.i
         adr, re, we, dat, pv = letter
         msg = None
-        exp = 0
-        if self.pending is not None:
-            w, sub = self.pending
-            exp = None if self.mem[w] is None else (self.mem[w] >> ((I.cpm - 1 - sub) * I.bw)) & ((1 << I.bw) - 1)
-        if exp is not None and not self.skip and outs[0] != exp:
+        exp = self.expected_datr()
+        if check_datr and exp is not None and outs[0] != exp:
             msg = "dat_r = %#x, expected %#x (content of the memory word addressed in the previous cycle)" % (outs[0], exp)
         self.skip = False
         self.pending = None
@@ -704,6 +711,9 @@ class ArrayInst:
         return bool(any(letter[4 * mi + 1] or letter[4 * mi + 2] for mi in range(self.nmasters))
                     or any(letter[4 * self.nmasters + 2 * k] for k in range(len(self.ports))))
 
+    def monitor(self):
+        return ArrayMonitor(self)
+
     def gen(self, rng, t):
         dmask = (1 << self.bw) - 1
         letter = []
@@ -723,3 +733,74 @@ class ArrayInst:
             else:
                 letter += [0, rng.choice((0, m, rng.getrandbits(r.eff_size())))]
         return tuple(letter)
+
+
+class _Win:
+    """Geometry of one memory window, as SramMonitor needs it."""
+
+    def __init__(self, bw, pbits, address, memory, read_only, page_bits):
+        self.bw, self.pbits, self.address = bw, pbits, address
+        self.width, self.depth = memory.width, memory.depth
+        self.cpm = -(-memory.width // bw)
+        self.read_only = read_only
+        self.init = list(memory.init or [])
+        self.page_bits = page_bits
+
+
+class ArrayMonitor:
+    """Property oracle for a bank array: one reference register file per bank, one reference memory per window,
+    all fed with the OR of the masters' signals; the read data every master sees must be the OR of what the
+    slaves are expected to drive (the addressed one its word, all others 0)."""
+
+    def __init__(self, inst):
+        self.inst = inst
+        self.banks = []
+        o = 1
+        d = 4 * inst.nmasters
+        ordering = "big" if " 0 %d " % inst.pbits in inst.lean_open else None
+        for (nm, csrs, mapaddr, rmap), regs in zip(inst.array.banks, inst.bank_regs):
+            nout = sum(4 + (len(r.fields) if r.kind == STORAGE else 0) for r in regs)
+            mon = RegFileMonitor(regs, inst.bw, inst.ordering, inst.pbits, mapaddr,
+                                 check_atomic=not (inst.ordering == "little" and any(
+                                     r.kind == STORAGE and r.atomic and r.eff_size() > inst.bw for r in regs)))
+            self.banks.append((mon, o, nout, d, len(regs)))
+            o += nout
+            d += 2 * len(regs)
+        self.wins = []
+        for (nm, memory, mapaddr, mmap) in inst.array.srams:
+            port = list(memory.ports)[0]
+            pb = len(mmap._page.storage) if mmap._page is not None else 0
+            mon = SramMonitor(_Win(inst.bw, inst.pbits, mapaddr, memory, port.we is None, pb))
+            page_out = None
+            if mmap._page is not None:
+                k = next(i for i, p in enumerate(inst.ports) if p.obj is mmap._page)
+                page_out = 1 + sum(p.nouts() for p in inst.ports[:k])
+            self.wins.append((mon, page_out))
+
+    def observe(self, letter, outs):
+        I = self.inst
+        bus = [0, 0, 0, 0]
+        for mi in range(I.nmasters):
+            for x in range(4):
+                bus[x] |= letter[4 * mi + x]
+        msg = None
+        exp, known = 0, True
+        for (mon, o, nout, d, nr) in self.banks:
+            exp |= mon.exp_datr
+        for (mon, page_out) in self.wins:
+            e = mon.expected_datr()
+            if e is None:
+                known = False
+            else:
+                exp |= e
+        if outs[0] == -1:
+            msg = "masters see different read data"
+        elif known and outs[0] != exp:
+            msg = "dat_r = %#x, expected %#x (OR of the addressed slave's word and zeros)" % (outs[0], exp)
+        for (mon, o, nout, d, nr) in self.banks:
+            m = mon.observe(tuple(bus) + tuple(letter[d:d + 2 * nr]), [None] + list(outs[o:o + nout]), check_datr=False)
+            msg = msg or m
+        for (mon, page_out) in self.wins:
+            pv = outs[page_out] if page_out is not None else 0
+            mon.observe(tuple(bus) + (pv,), [None], check_datr=False)
+        return msg
